@@ -82,6 +82,8 @@ async fn timeout_fut(
     fut: impl Future<Output = ()>,
     timeout: Option<Duration>,
 ) -> crate::DynResult<()> {
+    #[cfg(hannibal_verif)]
+    use crate::verif::futures_timer;
     if let Some(timeout) = timeout {
         futures::select! {
             res = fut.map(Ok).fuse() => res,
@@ -102,6 +104,8 @@ impl<A: Actor, R: RestartStrategy<A>> Environment<A, R> {
 
             let timeout = self.config.timeout;
             while let Some(event) = self.payload_stream.next().await {
+                #[cfg(hannibal_verif)]
+                crate::verif::dequeued(self.ctx.id, Some(&event));
                 match event {
                     Payload::Restart => {
                         log::trace!("restarting {}", A::NAME);
@@ -152,6 +156,8 @@ impl<A: Actor, R: RestartStrategy<A>> Environment<A, R> {
             loop {
                 futures::select! {
                     event = self.payload_stream.next().fuse() => {
+                        #[cfg(hannibal_verif)]
+                        crate::verif::dequeued(self.ctx.id, event.as_ref());
                         match event {
                             Some(Payload::Task(f)) => f(&mut actor, &mut self.ctx).await,
                             Some(Payload::Stop)  =>  break,
